@@ -1045,7 +1045,7 @@ func (e *taintEngine) guardFacts(at ssa.Instruction, match func(ssa.Value) bool,
 	return bits
 }
 
-func (e *taintEngine) condFacts(fn *ssa.Function, cond ssa.Value, val bool, ifi *ssa.If, at ssa.Instruction, match func(ssa.Value) bool, obj ssa.Value, field int) factBits {
+func (e *taintEngine) condFacts(fn *ssa.Function, cond ssa.Value, val bool, ifi ssa.Instruction, at ssa.Instruction, match func(ssa.Value) bool, obj ssa.Value, field int) factBits {
 	switch c := cond.(type) {
 	case *ssa.UnOp:
 		if c.Op == token.NOT {
@@ -1180,7 +1180,7 @@ type sumFact struct {
 
 // callResultFacts: the guard says "result of call is true" / "error result is
 // nil"; translate the callee's validator summary to facts about the matched value.
-func (e *taintEngine) callResultFacts(fn *ssa.Function, rv ssa.Value, mode int, ifi *ssa.If, at ssa.Instruction, match func(ssa.Value) bool, obj ssa.Value, field int) factBits {
+func (e *taintEngine) callResultFacts(fn *ssa.Function, rv ssa.Value, mode int, ifi ssa.Instruction, at ssa.Instruction, match func(ssa.Value) bool, obj ssa.Value, field int) factBits {
 	var call *ssa.Call
 	res := 0
 	switch x := rv.(type) {
@@ -1226,6 +1226,9 @@ func (e *taintEngine) callResultFacts(fn *ssa.Function, rv ssa.Value, mode int, 
 		arg := args[ai]
 		if sf.field < 0 {
 			if match(arg) {
+				if obj != nil && e.killedBetween(fn, call, at, obj, field) {
+					continue
+				}
 				bits |= sf.bits
 			}
 		} else if obj != nil && sf.field == field && sameObj(arg, obj) {
@@ -1250,16 +1253,55 @@ func (e *taintEngine) summary(k sumKey) []sumFact {
 	type pf struct{ p, f int }
 	acc := map[pf]factBits{}
 	first := true
+	// virtual returns: a boolean result that is a phi (`return a && b`) or a comparison
+	// (`return x < n`) is true only on the edges / outcomes that make it true
+	type vret struct {
+		at    ssa.Instruction
+		val   ssa.Value
+		extra []core.Guard
+	}
+	var vrets []vret
 	for _, rs := range core.Returns(fn, k.res) {
 		if rs.Val == nil {
 			continue
 		}
-		qualifies := true
 		if k.mode == modeBool {
-			if b, ok := core.ConstBool(rs.Val); ok && !b {
-				qualifies = false
+			var expand func(v ssa.Value, at ssa.Instruction, extra []core.Guard, d int)
+			expand = func(v ssa.Value, at ssa.Instruction, extra []core.Guard, d int) {
+				if ph, ok := v.(*ssa.Phi); ok && d < 4 {
+					for i, ed := range ph.Edges {
+						pred := ph.Block().Preds[i]
+						term := pred.Instrs[len(pred.Instrs)-1]
+						ex := append([]core.Guard{}, extra...)
+						if ifi, ok := term.(*ssa.If); ok && pred.Succs[0] != pred.Succs[1] {
+							ex = append(ex, core.Guard{Cond: ifi.Cond, Val: pred.Succs[0] == ph.Block(), If: ifi})
+						}
+						expand(ed, term, ex, d+1)
+					}
+					return
+				}
+				if b, isC := core.ConstBool(v); isC {
+					if b {
+						vrets = append(vrets, vret{at, v, extra})
+					}
+					return
+				}
+				// the value itself must be true
+				ex := append(append([]core.Guard{}, extra...), core.Guard{Cond: v, Val: true})
+				vrets = append(vrets, vret{at, v, ex})
 			}
-		} else {
+			expand(rs.Val, rs.Ret, nil, 0)
+			continue
+		}
+		vrets = append(vrets, vret{rs.Ret, rs.Val, nil})
+	}
+	for _, vr := range vrets {
+		rs := struct {
+			Ret ssa.Instruction
+			Val ssa.Value
+		}{vr.at, vr.val}
+		qualifies := true
+		if k.mode == modeErr {
 			if np, known := core.MayBeNil(rs.Val); known && !np {
 				qualifies = false
 			}
@@ -1277,10 +1319,19 @@ func (e *taintEngine) summary(k sumKey) []sumFact {
 		if !qualifies {
 			continue
 		}
+		extraFacts := func(match func(ssa.Value) bool, obj ssa.Value, field int) factBits {
+			var b factBits
+			for _, g := range vr.extra {
+				b |= e.condFacts(fn, g.Cond, g.Val, rs.Ret, rs.Ret, match, obj, field)
+			}
+			return b
+		}
 		cur := map[pf]factBits{}
 		for pi, p := range fn.Params {
 			if isIntegral(p.Type()) {
-				if b := e.factsFor(p, rs.Ret); b != 0 {
+				pp := p
+				b := e.factsFor(p, rs.Ret) | extraFacts(func(g ssa.Value) bool { return core.StripConv(g) == ssa.Value(pp) }, nil, -1)
+				if b != 0 {
 					cur[pf{pi, -1}] = b
 				}
 			}
@@ -1288,7 +1339,12 @@ func (e *taintEngine) summary(k sumKey) []sumFact {
 				if _, isPtr := p.Type().Underlying().(*types.Pointer); isPtr {
 					for fi := 0; fi < st.NumFields(); fi++ {
 						if isIntegral(st.Field(fi).Type()) {
-							if b := e.factsForPath(p, fi, rs.Ret, nil); b != 0 {
+							pp, ff := p, fi
+							b := e.factsForPath(p, fi, rs.Ret, nil) | extraFacts(func(g ssa.Value) bool {
+								o, f, ok := fieldLoad(g)
+								return ok && f == ff && sameObj(o, pp)
+							}, p, fi)
+							if b != 0 {
 								cur[pf{pi, fi}] = b
 							}
 						}
